@@ -97,4 +97,9 @@ Print Assumptions C02_popped_bar_index_is_reset.
 Example C02_nonvacuous :
   exists g, In g selects /\ has_send g = true /\ g_method g = "Add"%string /\ can_proceed late g = true
             /\ can_proceed (mkW false false) g = false.
-Proof. eexists. split; [right; do 22 right; left; reflexivity|]. vm_compute. repeat split. Qed.
+Proof.
+  (* found by name in the regenerated table, wherever it stands *)
+  destruct (find (fun g => String.eqb (g_method g) "Add" && has_send g) selects) as [g|] eqn:E; [|vm_compute in E; discriminate].
+  exists g. destruct (find_some _ _ E) as [I _]. split; [exact I|].
+  vm_compute in E. injection E as <-. vm_compute. repeat split.
+Qed.
